@@ -6,7 +6,9 @@
     * `none`         — the handler sends nothing on the transport thread (DATA, EXTENDED_DATA, WINDOW_ADJUST, EOF,
                        requests without want_reply, replies to our own requests);
     * `direct`       — it answers with `Transport._send_message`, which is not gated by `clear_to_send`;
-    * `userBlocking` — it answers with `Transport._send_user_message` *on the transport thread*, which waits for
+    * `userBlocking` — it answers with `Transport._send_user_message` *on the transport thread* (`_handle_close`,
+                       `_handle_request` with want_reply, `_request_failed`, the discard branch of `_feed_extended`
+                       once a window adjustment is due), which waits for
                        `clear_to_send` — an event only the transport thread itself sets, when it processes NEWKEYS.
 
   User threads send through `_send_user_message` and are parked while `clear_to_send` is cleared.
@@ -17,7 +19,7 @@ namespace PV.RekeyFlight
 inductive Kind
   | data | extendedData | windowAdjust | eof | channelRequestNoReply | globalRequestNoReply | requestReplyToUs
   | globalRequestWantReply | channelOpen
-  | channelClose | channelRequestWantReply
+  | channelClose | channelRequestWantReply | channelFailure | extendedDataDiscarded
   deriving Repr, DecidableEq, Inhabited
 
 inductive Mech | none | direct | userBlocking
@@ -25,7 +27,7 @@ inductive Mech | none | direct | userBlocking
 
 def mech : Kind → Mech
   | .globalRequestWantReply | .channelOpen => .direct
-  | .channelClose | .channelRequestWantReply => .userBlocking
+  | .channelClose | .channelRequestWantReply | .channelFailure | .extendedDataDiscarded => .userBlocking
   | _ => .none
 
 /-- message type of the answer -/
@@ -34,6 +36,8 @@ def replyType : Kind → Nat
   | .channelOpen => 91
   | .channelClose => 97
   | .channelRequestWantReply => 99
+  | .channelFailure => 96            -- `_request_failed` closes the channel: EOF, CLOSE
+  | .extendedDataDiscarded => 93     -- `_feed_extended` credits discarded data: WINDOW_ADJUST
   | _ => 0
 
 inductive Phase | idle | sentKexinit | kexRunning | sentNewkeys | done
